@@ -283,7 +283,7 @@ class Executor:
             ob.result = smt.Result("unsat", None, 0, 0.0, backend="simplify")
             return
         t = self.sol.time
-        r = self.sol.check(z3.Not(g), timeout_ms=self.ob_timeout_ms)
+        r = self.sol.check(z3.Not(g), timeout_ms=self.ob_timeout_ms if smt.SLOW[0] > 0 else 1000)
         if r == z3.unsat:
             ob.result = smt.Result("unsat", None, len(st.ctx.facts) + len(st.ctx.qfacts), self.sol.time - t,
                                    backend="z3-ematch-inc")
@@ -947,6 +947,7 @@ class Executor:
                 finally:
                     self.sol.pop()
             if (len(results) == 2 and results[0][0] != results[1][0] and self.merging
+                    and not getattr(e, "_nomerge", False)
                     and self.light(n0, results[0][2], results[1][2])
                     and not isinstance(results[0][1], Raised) and not isinstance(results[1][1], Raised)):
                 try:
@@ -1499,6 +1500,8 @@ class Executor:
         if isinstance(base, VObj):
             if name in base.fields:
                 return base.fields[name]
+            if base.cls == "Match" and name in ("start", "group"):
+                return BoundMethod(base, name)
             m = self.class_attr(base, name)
             if m is not None:
                 return m
@@ -1579,6 +1582,10 @@ class Executor:
                 yield VObj(obj.__name__, fields, fresh=True), st
                 return
             import re as _re
+            if isinstance(getattr(obj, "__self__", None), _re.Pattern) and obj.__name__ == "search":
+                from . import lib
+                yield lib.pattern_search(self, st, obj.__self__, args[0], node), st
+                return
             if isinstance(getattr(obj, "__self__", None), _re.Pattern) and obj.__name__ in ("match", "fullmatch"):
                 from . import lib
                 yield lib.regex_classes(self, st, obj.__self__, args[0], obj.__name__ == "fullmatch"), st
@@ -1853,6 +1860,8 @@ class Executor:
         if s.value is None:
             yield "return", NONE, st
             return
+        if isinstance(s.value, ast.IfExp):
+            s.value._nomerge = True      # the path ends here: merging the arms buys nothing
         for v, s2 in self.eval(s.value, st):
             if isinstance(v, Raised):
                 yield "raise", v.exc, s2
